@@ -92,6 +92,9 @@ Proof.
   - rewrite gate_sel in H. destruct c; discriminate.
 Qed.
 
+Lemma short_circuit_false : forall n p, short_circuit n p = false.
+Proof. intros. unfold short_circuit. change login_reaches_counter_on_every_path with true. reflexivity. Qed.
+
 Section ServerProofs.
   Variable ustore : Type.
   Variable hres : cmdk -> N -> option (N * bool) -> ustore -> res.
@@ -127,7 +130,7 @@ Section ServerProofs.
   (* only the acting connection changes its protocol state *)
   Lemma step_other_sessions : forall g e s, s <> e_sid e -> st_of (fst (fst (step g e))) s = st_of g s.
   Proof.
-    intros g e s Hne. unfold AuthGate.step, st_of.
+    intros g e s Hne. unfold AuthGate.step, st_of. rewrite ?short_circuit_false.
     destruct (gate (sess_get (g_sess ustore g) (e_sid e)) (e_cmd e)) eqn:Hg; cbn [fst g_sess]; try reflexivity.
     - apply sess_get_set_other. congruence.
     - destruct (login_step_shape (g_fails ustore g) (g_jail ustore g) (e_time e)
@@ -142,7 +145,7 @@ Section ServerProofs.
   Lemma step_store_frame : forall g e v, user_of (st_of g (e_sid e)) <> Some v ->
     stores_of (fst (fst (step g e))) v = stores_of g v.
   Proof.
-    intros g e v Hu. unfold AuthGate.step, stores_of, st_of in *.
+    intros g e v Hu. unfold AuthGate.step, stores_of, st_of in *. rewrite ?short_circuit_false.
     destruct (gate (sess_get (g_sess ustore g) (e_sid e)) (e_cmd e)) eqn:Hg; cbn [fst g_stores]; try reflexivity.
     - apply gate_admit in Hg. destruct Hg as [Hg _]. unfold store_set.
       destruct (N.eqb_spec v u); [subst; congruence|reflexivity].
@@ -201,7 +204,7 @@ Section ServerProofs.
                 st = PNotAuth /\ e_cmd e = CLogin /\ valid_cred u (e_name e) (e_pass e) /\ snd (fst (step g e)) = ROk
     end.
   Proof.
-    intros g e st st'. subst st st'. unfold AuthGate.step, st_of.
+    intros g e st st'. subst st st'. unfold AuthGate.step, st_of. rewrite ?short_circuit_false.
     destruct (gate (sess_get (g_sess ustore g) (e_sid e)) (e_cmd e)) eqn:Hg; cbn [fst snd g_sess].
     - destruct (user_of _); [left; reflexivity|]. intros u Hu. congruence.
     - apply gate_admit in Hg. destruct Hg as [Hu _]. rewrite Hu. rewrite sess_get_set_same.
@@ -217,6 +220,21 @@ Section ServerProofs.
       + rewrite Hst. cbn [user_of]. discriminate.
     - rewrite sess_get_set_same. destruct (user_of _); [right; reflexivity|]. intros u Hu. discriminate.
     - rewrite sess_get_set_same. destruct (user_of _); [right; reflexivity|]. intros u Hu. discriminate.
+  Qed.
+
+  (* every LOGIN of a not-authenticated connection, whatever name and password it carries (empty ones included), goes
+     through the failure counter and the jail wait *)
+  Lemma login_always_counts : forall g e, st_of g (e_sid e) = PNotAuth -> e_cmd e = CLogin ->
+    let ok := match authorize (e_name e) (e_pass e) with Some _ => true | None => false end in
+    let '(f, j, r, t) := login_step (g_fails ustore g) (g_jail ustore g) (e_time e) ok in
+    g_fails ustore (fst (fst (step g e))) = f /\ g_jail ustore (fst (fst (step g e))) = j
+    /\ snd (fst (step g e)) = r /\ snd (step g e) = t.
+  Proof.
+    intros g e Hst Hc. unfold AuthGate.step. rewrite ?short_circuit_false. unfold st_of in Hst.
+    rewrite Hst, Hc, gate_notauth.
+    destruct (login_step (g_fails ustore g) (g_jail ustore g) (e_time e)
+                (match authorize (e_name e) (e_pass e) with Some _ => true | None => false end)) as [[[f j] r] t].
+    cbn [fst snd g_fails g_jail]. repeat split.
   Qed.
 
   (* ---- lifting step facts to every history ---- *)
@@ -251,7 +269,7 @@ Section ServerProofs.
   Proof.
     intros v g1 g2 e (Hs & Hf & Hj & Hst) Hno Hauth.
     pose proof (Hno (e_sid e)) as Hme.
-    unfold AuthGate.step. unfold st_of in *. rewrite <- Hs, <- Hf, <- Hj.
+    unfold AuthGate.step. rewrite ?short_circuit_false. unfold st_of in *. rewrite <- Hs, <- Hf, <- Hj.
     destruct (gate (sess_get (g_sess ustore g1) (e_sid e)) (e_cmd e)) eqn:Hg.
     - repeat split; auto.
     - pose proof (gate_admit _ _ _ _ Hg) as [Hu Hsel].
@@ -400,7 +418,7 @@ Section ServerProofs.
     induction h as [|e t IH]; intros g; [reflexivity|].
     cbn [AuthGate.trace]. destruct (step g e) as [[g' r] ta] eqn:Hstep.
     unfold attempts. cbn [filter is_attempt].
-    unfold AuthGate.step in Hstep. unfold st_of.
+    unfold AuthGate.step in Hstep. rewrite ?short_circuit_false in Hstep. unfold st_of.
     destruct (gate (sess_get (g_sess ustore g) (e_sid e)) (e_cmd e)) eqn:Hg.
     - inversion Hstep; subst. apply IH.
     - inversion Hstep; subst. rewrite IH. reflexivity.
